@@ -194,6 +194,7 @@ func (st *State) bitsBinop(x *ssa.BinOp, res Val) Val {
 			}
 			out = va.SignExt(w + sh).Shr(sh).Trunc(w)
 		}
+		st.noteDead(x, va, out)
 		return st.withBits(res, out)
 	}
 	if isBoolResult(x.Op) {
@@ -250,6 +251,10 @@ func (st *State) bitsBinop(x *ssa.BinOp, res Val) Val {
 			out = vb.Shl(bitLen(k) - 1)
 		}
 	}
+	if out != nil && (x.Op == token.AND || x.Op == token.AND_NOT) {
+		st.noteDead(x, va, out)
+		st.noteDead(x, vb, out)
+	}
 	if out == nil {
 		var sup []bitdom.Atom
 		for _, f := range append(append(bitdom.Vec{}, va...), vb...) {
@@ -280,6 +285,14 @@ func (st *State) withBits(res Val, vec bitdom.Vec) Val {
 		}
 	}
 	res.Bits = vec
+	if st.ip.LinOfBits != nil && res.K == KInt {
+		if syms := res.F.Syms(); len(syms) == 1 && res.F.C == 0 && strings.Contains(syms[0], "%") {
+			if f, ok := st.ip.LinOfBits(st, vec); ok {
+				res.F = f
+				return res
+			}
+		}
+	}
 	st.setDef(res, vec)
 	return res
 }
@@ -384,3 +397,25 @@ func (st *State) symValVec(s string, paramVal map[string]Val, inst string) bitdo
 	}
 	return st.ip.FormVec(st.instSym(s, paramVal, inst), 64)
 }
+
+// noteDead records rule A5's contradiction: an operation that discards every variable bit of its operand (a shift
+// by at least the operand's width, a mask that selects none of its live bits): the result is a constant although
+// the source mentions a value.
+func (st *State) noteDead(x *ssa.BinOp, operand, result bitdom.Vec) {
+	if st.ip.Oracle != nil {
+		return // under an oracle the inputs are partly decided: only judged on fully symbolic inputs
+	}
+	if _, isC := result.IsConst(); !isC {
+		return
+	}
+	if _, isC := operand.IsConst(); isC {
+		return
+	}
+	if st.ip.DeadOps == nil {
+		st.ip.DeadOps = map[token.Pos]string{}
+	}
+	st.ip.DeadOps[x.Pos()] = x.Op.String()
+}
+
+// SetDef records the bits of an opaque symbol on this path (for oracles).
+func (st *State) SetDef(sym string, vec bitdom.Vec) { st.setDef(IntVal(lin.Sym(sym)), vec) }
